@@ -10,7 +10,7 @@ from ..terms import show_atom
 
 ID = 'C12'
 LEVEL = 'model_checking'
-RULE = ('(positions also in the second / third clause of a predicate and in a second predicate; payloads that re-open a block at every indentation after a line break) ' '(payloads also with ASCII punctuation replaced by the compatibility forms U+FF01..U+FF5E) ' '(every payload also at the start, the end and in the middle of a long multi-line text; three neighbouring long texts that cooperate: the first ends and the last starts with 1..3 quote characters of either kind, the middle one is code) ' 'every string of length <= 3 [quick: length 3 only in 5 of the 17 positions] over the 18 characters {a Z 0 _ space \' " LF CR # % ( ) , . : é 五} '
+RULE = ('(histories: every sequence of <= 4 operations out of load / load with overwrite / clear / assert_fact / query containing a load: after every operation the evaluation context has an empty __builtins__ and every loaded function has globals with that empty mapping) (positions also in the second / third clause of a predicate and in a second predicate; payloads that re-open a block at every indentation after a line break) ' '(payloads also with ASCII punctuation replaced by the compatibility forms U+FF01..U+FF5E) ' '(every payload also at the start, the end and in the middle of a long multi-line text; three neighbouring long texts that cooperate: the first ends and the last starts with 1..3 quote characters of either kind, the middle one is code) ' 'every string of length <= 3 [quick: length 3 only in 5 of the 17 positions] over the 18 characters {a Z 0 _ space \' " LF CR # % ( ) , . : é 五} '
         'plus 30 payloads (Python expressions, statements after a newline, engine/API names, dunder names, each carrying '
         'a unique marker) as a quoted atom in EVERY syntactic position (clause-head name - also in a parenthesised or operator head -, body-goal name, head argument, '
         'goal argument, functor name, list element, directive argument, both sides of =), and 288 generated break-out attempts (quote of either kind + code + closers + comment tail, with and without the other kind of quote), and every hostile identifier as '
@@ -441,8 +441,68 @@ def check_query(name, n, kind):
 NSH = 32
 
 
+
+# ---- the sandbox of an engine over its lifetime --------------------------------------------------------------------
+# every history of <= 4 operations out of {load a script, clear(), assert a fact, run a query, load with overwrite}:
+# after every operation the engine's evaluation context has an EMPTY __builtins__ and every function a load has
+# put into it has globals whose __builtins__ is that empty mapping - also after clear() and at later loads
+HIST_OPS = ['load', 'clear', 'assert', 'query', 'load-overwrite']
+
+
+_HIST_PY = []
+
+
+def sandbox_history(ops):
+    import types
+    if not _HIST_PY:
+        _HIST_PY.append(impl.compile_text("hp(a).\nhp(X) :- hq(X).\nhq(b).\n"))
+    pytext = _HIST_PY[0]
+    yp = impl.YP()
+    for i, op in enumerate(ops):
+        if op == 'load':
+            yp.load_script_from_string(pytext, fn=impl.SCRIPT_FN, overwrite=False)
+        elif op == 'load-overwrite':
+            yp.load_script_from_string(pytext, fn=impl.SCRIPT_FN, overwrite=True)
+        elif op == 'clear':
+            yp.clear()
+        elif op == 'assert':
+            yp.assert_fact(yp.atom('hq'), [yp.atom('c')])
+        else:
+            v = yp.variable()
+            for _ in yp.query('hp', [v]):
+                pass
+        ctx = yp.eval_context
+        b = ctx.get('__builtins__', 'MISSING')
+        if not (isinstance(b, dict) and len(b) == 0):
+            return 'after %r the evaluation context has __builtins__ = %s' % (ops[:i + 1], 'no entry (Python will insert its own at the next load)' if b == 'MISSING' else '%d names' % len(b) if hasattr(b, '__len__') else repr(b)[:60])
+        for name, f in list(ctx.items()):
+            fs = f if isinstance(f, list) else [f]
+            for g in fs:
+                if isinstance(g, types.FunctionType) and g.__code__.co_filename == impl.SCRIPT_FN:
+                    gb = g.__globals__.get('__builtins__', 'MISSING')
+                    if not (isinstance(gb, dict) and len(gb) == 0):
+                        return 'after %r the loaded function %s runs with %s builtins' % (ops[:i + 1], name, 'Python\'s own' if gb == 'MISSING' or len(getattr(gb, '__dict__', gb)) else repr(gb)[:40])
+    return None
+
+
+def run_sandbox_histories(acc):
+    import itertools
+    for n in range(1, 5):
+        for ops in itertools.product(HIST_OPS, repeat=n):
+            if 'load' not in ops and 'load-overwrite' not in ops:
+                continue
+            acc.n['evaluations'] += 1
+            acc.n['validated'] += 1
+            acc.n['nontrivial'] += 1
+            acc.n['transitions'] += n
+            bad = sandbox_history(list(ops))
+            if bad:
+                acc.violation('history:loaded-code-sees-python-builtins', ('H', n) + tuple(HIST_OPS.index(o) for o in ops), {'history': list(ops)}, bad, key='hist|' + '|'.join(ops))
+            else:
+                acc.outcome(('history', 'sandboxed'))
+
 def plan(tier):
-    return [(tier, kind, k, NSH) for kind in ('strings', 'payloads', 'queries') for k in range(NSH)]
+    return [(tier, kind, k, NSH) for kind in ('strings', 'payloads', 'queries') for k in range(NSH)] + [(tier, 'histories', 0, 1)]
 
 
 def run_shard(spec):
@@ -462,6 +522,9 @@ def run_shard(spec):
             acc.n['nontrivial'] += 1
             acc.n['transitions'] += 2
 
+    if kind == 'histories':
+        run_sandbox_histories(acc)
+        return acc
     if kind in ('strings', 'payloads'):
         if kind == 'strings':
             items = list(strings(3))
@@ -565,6 +628,9 @@ def run_shard(spec):
 
 
 def replay(case):
+    if 'history' in case:
+        bad = sandbox_history(case['history'])
+        return [('history:loaded-code-sees-python-builtins', bad)] if bad else []
     if 'text' in case:
         res = check_program(case['text'])
     else:
